@@ -374,8 +374,26 @@ def op_dddmp(w, ins):
     fname = f'd{w.step_no}.dddmp'
     w.put_file(fname, text.encode('utf8'))
     D = seams.DD
+    torn = ins.get('torn')
+    if torn:
+        # an unreadable file first (torn at a seeded byte, or a read error at
+        # a seeded position), written in another style: whatever the loader
+        # makes of it must not leak into the load of the good file
+        t2, _ = write_dddmp(w, m, roots[:1] if torn.get('one') else roots, torn['style'])
+        raw2 = t2.encode('utf8')
+        if torn.get('read_fault'):
+            w.put_file('torn.dddmp', raw2)
+            done = _arm(w, dict(kind='read', pos=torn['cut'] % (len(raw2) + 1)))
+            ok2, nb2 = call(w, D.dddmp.load, 'torn.dddmp')
+            done()
+        else:
+            w.put_file('torn.dddmp', raw2[:torn['cut'] % len(raw2)])
+            ok2, nb2 = call(w, D.dddmp.load, 'torn.dddmp')
+        w.stats['dddmp_torn_refused' if not ok2 else 'dddmp_torn_accepted'] += 1
+        del nb2
+        w.cur_info.pop('raised', None)
     ok, nb = call(w, D.dddmp.load, fname)
-    expect_ok(w, ok, nb, 'C16', f'dddmp.load (varinfo {meta["mode"]}, orderedvarnames {meta["ordered"]}, gaps {meta["gaps"]})')
+    expect_ok(w, ok, nb, 'C16', ('after a refused load of a torn file: ' if torn else '') + f'dddmp.load (varinfo {meta["mode"]}, orderedvarnames {meta["ordered"]}, gaps {meta["gaps"]})')
     tmp = Mgr(98, 'raw', nb, nb)
     sn = w.snapshot(tmp)
     if sn.problems:
@@ -459,7 +477,10 @@ def gen_manager_roundtrip(w, r, cfg):
 
 
 def gen_dddmp(w, r, cfg):
-    return dict(op='dddmp', roots=[_ri(r) for _ in range(r.randint(1, 3))], style=r.randrange(1 << 30))
+    torn = None
+    if r.random() < 0.3:
+        torn = dict(style=r.randrange(1 << 30), cut=r.randrange(1 << 12), read_fault=r.randrange(2), one=r.randrange(2))
+    return dict(op='dddmp', roots=[_ri(r) for _ in range(r.randint(1, 3))], style=r.randrange(1 << 30), torn=torn)
 
 
 for _n, _f, _p, _g in [
